@@ -411,6 +411,18 @@ func c17BodyRow(r *rng, comm bool, m, digits int, k bool) string {
 	if r.chance(8) {
 		nc, fill = r.intn(m), true
 	}
+	if r.chance(6) {
+		// near-twins: amounts of 15-18 significant digits that differ only in their last places (a balance of 9e14
+		// with a booking of 0.03 between two columns): equal as float64, different as decimals (seeded change
+		// C17d-memoised-by-float64 reused the first one's text for the second)
+		base, _ := new(big.Int).SetString(c17DigitStr(r, r.rangeInt(15, 18)), 10)
+		exp := -r.rangeInt(1, 4)
+		for i := 0; i < nc; i++ {
+			v := new(big.Int).Add(base, big.NewInt(int64(i*r.rangeInt(1, 9))))
+			cells = append(cells, fmt.Sprintf("N%se%d", v.String(), exp))
+		}
+		nc = 0
+	}
 	for i := 0; i < nc; i++ {
 		cells = append(cells, c17NumCell(r, digits, k))
 	}
